@@ -2419,8 +2419,11 @@ class State:
             cards = Card.clean(cards)
             dealable_cards = tuple(self.get_dealable_cards(len(cards)))
 
-            for card in cards:
-                if card not in dealable_cards and card:
+            for i, card in enumerate(cards):
+                if (
+                        card
+                        and (card not in dealable_cards or card in cards[:i])
+                ):
                     warn(
                         (
                             f'A card being dealt {repr(card)} is not'
@@ -5522,7 +5525,12 @@ class State:
             hole_card_statuses += (False,) * count
 
             self._verify_cards_consumption(
-                set(hole_cards) - set(self.hole_cards[player_index]),
+                tuple(
+                    (
+                        Counter(hole_cards)
+                        - Counter(self.hole_cards[player_index])
+                    ).elements(),
+                ),
             )
 
         if cards is None or hole_cards is None or hole_card_statuses is None:
